@@ -185,22 +185,29 @@ void h_free_tree_flat (void)
 }
 /* shape 2: ALT root over two abstract nodes of the same rule (one shared name block), each with one child from {T1, T2, NIL};
    or an abstract-node root whose first child is an abstract node */
-void h_free_tree_nested (void)
+#define CHECK_FREED() do { int i_; HAVOC (i_); __CPROVER_assume (i_ >= 0 && i_ < NIDS); \
+  __CPROVER_assert (freed[i_] == used[i_], "every block reachable from the root is passed to parse_free exactly once, no other block is"); \
+  __CPROVER_assert (stray == 0, "only blocks of the tree are passed to parse_free"); \
+  __CPROVER_assert (i_ > ID_T2 || termc[i_] == used[i_], "termcb is called exactly once per TERM node of the tree"); } while (0)
+void h_free_tree_alt (void)
 {
-  node_t *t1 = mk (ID_T1, YAEP_TERM), *t2 = mk (ID_T2, YAEP_TERM), *nil = mk (ID_N, YAEP_NIL), *a = mk (ID_A, YAEP_ANODE), *a2 = mk (ID_A2, YAEP_ANODE), *r = mk (ID_R, YAEP_ANODE);
-  node_t *alt1 = mk (ID_ALT1, YAEP_ALT), *alt2 = mk (ID_ALT2, YAEP_ALT), *root; int i; _Bool ambiguous;
+  node_t *t1 = mk (ID_T1, YAEP_TERM), *t2 = mk (ID_T2, YAEP_TERM), *nil = mk (ID_N, YAEP_NIL), *a = mk (ID_A, YAEP_ANODE), *a2 = mk (ID_A2, YAEP_ANODE);
+  node_t *alt1 = mk (ID_ALT1, YAEP_ALT), *alt2 = mk (ID_ALT2, YAEP_ALT); char *name_a = mkname (ID_NAME_A);
+  a->val.anode.name = name_a; a2->val.anode.name = name_a;      /* one name block per rule, shared by all its nodes */
+  kids (a, 1, t1, t2, nil, NULL, used); kids (a2, 1, t1, t2, nil, NULL, used);
+  used[ID_A] = used[ID_A2] = used[ID_NAME_A] = used[ID_ALT1] = used[ID_ALT2] = 1;
+  alt1->val.alt.node = a; alt1->val.alt.next = alt2; alt2->val.alt.node = a2; alt2->val.alt.next = NULL;
+  yaep_free_tree (alt1, my_free, my_termcb);
+  CHECK_FREED (); VACUITY_CANARY ();
+}
+void h_free_tree_nest (void)
+{
+  node_t *t1 = mk (ID_T1, YAEP_TERM), *t2 = mk (ID_T2, YAEP_TERM), *nil = mk (ID_N, YAEP_NIL), *a = mk (ID_A, YAEP_ANODE), *r = mk (ID_R, YAEP_ANODE);
   char *name_a = mkname (ID_NAME_A), *name_r = mkname (ID_NAME_R);
-  a->val.anode.name = name_a; a2->val.anode.name = name_a; r->val.anode.name = name_r;      /* one name block per rule, shared by all its nodes */
-  kids (a, 1, t1, t2, nil, NULL, used); used[ID_A] = 1; used[ID_NAME_A] = 1;
-  if (ambiguous)
-    { kids (a2, 1, t1, t2, nil, NULL, used); used[ID_A2] = 1; used[ID_ALT1] = used[ID_ALT2] = 1;
-      alt1->val.alt.node = a; alt1->val.alt.next = alt2; alt2->val.alt.node = a2; alt2->val.alt.next = NULL; root = alt1; }
-  else { kids (r, 2, t1, t2, nil, a, used); used[ID_R] = 1; used[ID_NAME_R] = 1; root = r; }
-  yaep_free_tree (root, my_free, my_termcb);
-  HAVOC (i); __CPROVER_assume (i >= 0 && i < NIDS);
-  __CPROVER_assert (freed[i] == used[i], "every block reachable from the root is passed to parse_free exactly once, no other block is");
-  __CPROVER_assert (stray == 0, "only blocks of the tree are passed to parse_free");
-  __CPROVER_assert (i > ID_T2 || termc[i] == used[i], "termcb is called exactly once per TERM node of the tree");
-  if (ambiguous) VACUITY_CANARY_N ("ALT root"); else VACUITY_CANARY_N ("abstract-node root");
+  a->val.anode.name = name_a; r->val.anode.name = name_r;
+  kids (a, 1, t1, t2, nil, NULL, used); kids (r, 2, t1, t2, nil, a, used);
+  used[ID_A] = used[ID_NAME_A] = used[ID_R] = used[ID_NAME_R] = 1;
+  yaep_free_tree (r, my_free, my_termcb);
+  CHECK_FREED (); VACUITY_CANARY ();
 }
 #endif
